@@ -882,8 +882,9 @@ public:
                     }
                     if (ignore_empty_values_ && buffer_.empty())
                     {
-                        // an ignored empty value that ends a list of subfields still has to close that list
-                        state_ = (stack_.back() == csv_mode::subfields) ? csv_parse_state::before_last_unquoted_field_tail : csv_parse_state::end_record;
+                        // an ignored empty value still is a field of the record: the tail state closes a list of subfields and ends the record,
+                        // also when every value of the record was ignored (column_index_ == 0)
+                        state_ = csv_parse_state::before_last_unquoted_field_tail;
                     }
                     else
                     {
@@ -904,8 +905,9 @@ public:
                     }
                     else
                     {
-                        // an ignored empty value that ends a list of subfields still has to close that list
-                        state_ = (stack_.back() == csv_mode::subfields) ? csv_parse_state::before_last_unquoted_field_tail : csv_parse_state::end_record;
+                        // an ignored empty value still is a field of the record: the tail state closes a list of subfields and ends the record,
+                        // also when every value of the record was ignored (column_index_ == 0)
+                        state_ = csv_parse_state::before_last_unquoted_field_tail;
                     }
                     break;
                 case csv_parse_state::quoted_string: // end of input inside a quoted field: the closing quote is missing
@@ -924,8 +926,9 @@ public:
                         }
                         else
                         {
-                            // an ignored empty value that ends a list of subfields still has to close that list
-                            state_ = (stack_.back() == csv_mode::subfields) ? csv_parse_state::before_last_unquoted_field_tail : csv_parse_state::end_record;
+                            // an ignored empty value still is a field of the record: the tail state closes a list of subfields and ends the record,
+                            // also when every value of the record was ignored (column_index_ == 0)
+                            state_ = csv_parse_state::before_last_unquoted_field_tail;
                         }
                     }
                     else
